@@ -31,7 +31,7 @@ import types
 import compat  # noqa: F401
 from engines import Result
 from engines.broker import hx
-from lean_driver import hexf, hexin
+from lean_driver import hexf, hexin, fnv1a
 
 import hpfeeds.protocol as P
 import hpfeeds.blocking.queue as BQ
@@ -447,10 +447,16 @@ class Impl(object):
         proto = getattr(r, 'protocol', None)
         ubuf = len(proto.unpacker.buf) if proto is not None else 0
         subs = sorted(c.encode() for c in set.__iter__(self.session.subscriptions))
-        return 'buf=%d q=%d rd=%d ready=%d live=%d ubuf=%d rq=%d subs=[%s]' % (
+        # the frames put into the current outbox, in true queue order, and the bytes its socket accepted (the
+        # model's ghosts `enq` and `wire`), as length + hash
+        enq = b''.join(bytes(x) for x in ob.putlog) if self.gen else b''
+        nenq = len(ob.putlog) if self.gen else 0
+        wire = bytes(self.wire.get(self.gen, b''))
+        return 'buf=%d q=%d rd=%d ready=%d live=%d ubuf=%d rq=%d subs=[%s] enq=%d:%d wire=%d:%d' % (
             len(getattr(r, '_buffer', b'')) if self.gen else 0, ob.qsize(), 1 if ob.readable() else 0,
             1 if r.when_connected.raw() else 0, 1 if self.live() else 0,
-            ubuf, self.session.read_queue.qsize(), ','.join(hexf(c) for c in subs))
+            ubuf, self.session.read_queue.qsize(), ','.join(hexf(c) for c in subs),
+            nenq, fnv1a(enq), len(wire), fnv1a(wire))
 
     def close(self):
         for t in list(self.threads):
